@@ -44,7 +44,7 @@ CLAIMED = {
              "anything is constructed, for all other arguments (7 classes + WRITE SAME(16) unless NDOB; ATA by flag sweep); no constructor "
              "of any of the 42 classes returns a command for any of the 96 operation codes without a fixed CDB length. The refusals that go "
              "through the facade and the parameter-list marshallers (PR IN service action, EXTENDED COPY keys/codes, TransportID, nothing "
-             "sent) are checked on the implementation by 430 scenario probes with a recording device on every run (PR IN with every value 4..39, -40..-1, large, negative large, None, strings, (); EXTENDED COPY descriptors with the unknown keys "", " ", 0, None, an upper-case known key); "
+             "sent) are checked on the implementation by 430 scenario probes with a recording device on every run (PR IN with every value 4..39, -40..-1, large, negative large, None, strings, (); EXTENDED COPY descriptors with the unknown keys "", " ", 0, None, an upper-case known key, and with the names of each code table given for the fields of the other two); "
              "the PERSISTENT RESERVE IN method is REGENERATED and must be exactly the chain `if sa == X: ... elif ... else: raise ValueError` over the four service actions (C17_prin_dispatch_is_a_closed_chain).",
         ref="DESIGN.md §4 C17",
         note="As C01. Partial: the facade/marshaller refusals are decided by exhaustive scenario probes of the implementation, not yet by a "
